@@ -163,6 +163,54 @@ pub fn c02_too_long(out: &mut Sink) {
     );
 }
 
+// ------------------------------------------------------------------ C03
+
+/// two representations of one logical value (same value seed, two shape seeds) encode identically;
+/// every transparent wrapper around a reference to the value encodes like the value
+pub fn c03<T: Full>(g: &mut Gen, b: &Budget, out: &mut Sink) {
+    use std::borrow::Cow;
+    use std::cell::{Cell, RefCell};
+    use std::rc::Rc;
+    use std::sync::Arc;
+    let ty = T::ty();
+    for i in 0..b.values {
+        let vseed = g.next();
+        crate::gen::set_shape_seed(vseed ^ 0x1111);
+        let v1 = T::gen(&mut Gen::new(vseed), 0);
+        crate::gen::set_shape_seed(vseed ^ 0x2222 ^ (i as u64) << 20);
+        let v2 = T::gen(&mut Gen::new(vseed), 0);
+        let (c1, c2) = (canon_of(&v1), canon_of(&v2));
+        let case1 = format!("enc {} {}", ty, val_of(&v1));
+        let case2 = format!("enc {} {}", ty, val_of(&v2));
+        let (e1, b1) = enc_obs(&v1);
+        let (e2, _) = enc_obs(&v2);
+        out.case(&case1, &e1);
+        out.case(&case2, &e2);
+        if c1 == c2 {
+            out.oracle("C03", e1 == e2, &case1, &format!("equal logical value {} encodes differently: {} vs {}", case2, e1, e2));
+        }
+        // repeated serialization of the same value
+        let (e1b, _) = enc_obs(&v1);
+        out.oracle("C03", e1 == e1b, &case1, "second serialization differs");
+        // transparent wrappers
+        if b1.is_some() {
+            let r = &v1;
+            let w: [(&str, String); 7] = [
+                ("&&T", enc_obs(&&r).0),
+                ("Box<&T>", enc_obs(&Box::new(r)).0),
+                ("Rc<&T>", enc_obs(&Rc::new(r)).0),
+                ("Arc<&T>", enc_obs(&Arc::new(r)).0),
+                ("Cell<&T>", enc_obs(&Cell::new(r)).0),
+                ("RefCell<&T>", enc_obs(&RefCell::new(r)).0),
+                ("Cow<&T>", enc_obs(&Cow::Borrowed(&r)).0),
+            ];
+            for (n, e) in w.iter() {
+                out.oracle("C03", *e == e1, &case1, &format!("wrapper {} encodes as {} but the value as {}", n, e, e1));
+            }
+        }
+    }
+}
+
 // ------------------------------------------------------------------ C04 / C16: malformed input
 
 /// mutations of a valid encoding
@@ -264,7 +312,8 @@ fn malformed_one<T: Full>(case_bytes: &[u8], out: &mut Sink, index_coll: bool) {
         match bs2 {
             None => out.oracle("C04", false, &case, &format!("accepted value does not re-encode: {}", eo)),
             Some(bs2) => {
-                if MODE == "strict" && !index_coll {
+                if MODE == "strict" {
+                    let _ = index_coll;
                     out.oracle("C04", bs2 == case_bytes, &case, &format!("re-encodes to {}", hex(&bs2)));
                 }
                 let (o2, _) = fs_obs::<T>(&bs2);
@@ -299,6 +348,17 @@ pub fn c04<T: Full>(g: &mut Gen, b: &Budget, out: &mut Sink) {
 
 /// bounded-exhaustive: every string of length <= 2 over the full alphabet is too many per type;
 /// all strings of length <= `len` over a small alphabet
+/// committed corpus: minimised past failures and the witnesses of the known findings, run first
+pub fn c04_corpus(out: &mut Sink) {
+    malformed_one::<indexmap::IndexSet<u8>>(&[2, 0, 0, 0, 5, 5], out, true);
+    malformed_one::<indexmap::IndexMap<u8, u8>>(&[2, 0, 0, 0, 5, 1, 5, 2], out, true);
+    malformed_one::<std::collections::BTreeSet<u8>>(&[2, 0, 0, 0, 5, 5], out, false);
+    malformed_one::<std::collections::BTreeSet<u8>>(&[2, 0, 0, 0, 6, 5], out, false);
+    malformed_one::<std::collections::BTreeMap<u8, u8>>(&[2, 0, 0, 0, 5, 1, 5, 2], out, false);
+    malformed_one::<HashSet<u8>>(&[2, 0, 0, 0, 5, 5], out, false);
+    malformed_one::<HashMap<u8, u8>>(&[2, 0, 0, 0, 6, 1, 5, 2], out, false);
+}
+
 pub fn c04_exhaustive<T: Full>(len: usize, alphabet: &[u8], out: &mut Sink) {
     let index_coll = T::ty().contains("index");
     let mut cur: Vec<u8> = Vec::new();
@@ -400,6 +460,7 @@ pub fn run_prop<T: Full>(prop: &str, g: &mut Gen, b: &Budget, out: &mut Sink) {
     match prop {
         "C01" => c01::<T>(g, b, out),
         "C02" => c02::<T>(g, b, out),
+        "C03" => c03::<T>(g, b, out),
         "C04" | "C16" | "C07" => c04::<T>(g, b, out),
         "C05" => c05::<T>(g, b, out),
         _ => {}
